@@ -9,7 +9,7 @@ SPEC = {
            dict(CRDT, files=FILES, test="TestVerifC02Net", n_quick=3, n_thorough=36,
                 shards_quick=1, shards_thorough=1, timeout_quick=600, timeout_thorough=3000)],
     "rule": "H1 (TestVerifC02Batch): scripts of pin/unpin over 3 CIDs x 12 rich pin variants on one real Consensus, config classes "
-            "{batching off, size-only 1..4, age-only, both limits, queue 1..3 with the worker held during a burst} x 0..3 failing datastore "
+            "{batching off, size-only 1..4, age-only, both limits, restart (Shutdown with an open batch / operations queued, a LogPin after it, a new Consensus on the same datastore), queue 1..3 with the worker held during a burst} x 0..3 failing datastore "
             "commits (tombstone / element / heads write) and, with batching, 0..1 failing set queries (the worker's Rm returns an error), 7% of the pins cannot be "
             "serialised (name not valid UTF-8: refused by LogPin), a pin repeats the last pin of its CID with a fair probability (already stored as given, unpin + "
             "identical pin in one batch, pin / unpin / identical pin), every 4th case from a boundary+malformed list, every 24th case a trickle "
@@ -45,7 +45,7 @@ SPEC = {
                 "harness/crdt/c02_set_test.go: harness Broadcaster (manual inbox) and DAGSyncer (per-replica map, fallback fetch); NumWorkers=1 so that one delta is merged at a time",
                 "go-ds-crdt v0.1.21 DAG walk, heads bookkeeping, pubsub and bitswap delivery are not modelled (merge order and delta contents are taken from the observation; the set logic is modelled)",
                 "value bytes are compared through their rank in bytes.Compare order within a case"],
-    "level_text": "Theorems (Props/C02.v, 37, all closed) over Gallina transcriptions of consensus.go LogPin/LogUnpin/batchWorker (event machine with Go<1.23 timer "
+    "level_text": "Theorems (Props/C02.v, 39, all closed) over Gallina transcriptions of consensus.go LogPin/LogUnpin/batchWorker (event machine with Go<1.23 timer "
                   "semantics, every schedule and every Add/Rm/Commit outcome; a timed refinement with an explicit clock in which Reset sets an expiry: the age timer "
                   "of a pending batch always expires MaxBatchAge after its first operation was taken, and in every timely schedule no operation waits longer than "
                   "MaxBatchAge + latency), of go-ds-crdt v0.1.21 set.go + the write path of crdt.go as written (every delta list, every delivery order, every commit "
@@ -54,7 +54,7 @@ SPEC = {
                   "every run and the implementation's own observations are checked against the boolean form of the property",
     "level_note": "model tied to code by differential testing (generator-bounded). Three statements are false of the dependency as written and are kept as _refuted/_partial pairs with "
                   "Gallina recognisers (findings): value divergence and missing PutHook when a tombstoned element outranks a surviving one (S3), value divergence when one delta pins a CID twice, "
-                  "a lost pin when a publish fails at the heads write. S28 (empty batch committed: nil-delta panic) and S29 (unserialisable pin accepted with batching) are fixed by branches fix-S28 / fix-S29; "
+                  "a lost pin when a publish fails at the heads write. S28 (empty batch committed: nil-delta panic), S29 (unserialisable pin accepted with batching) and S35 (Shutdown dropped accepted batched operations) are fixed by branches fix-S28 / fix-S29 / fix-S35; "
                   "the model follows the repaired code (batch_never_commits_empty_batch at full strength, batch_empty_commit_before_fix_refuted for the old code). The age bound is proved under a stated timeliness assumption on the Go runtime (a due timer "
                   "fires within lf, the worker reads a fired timer within lw); on the implementation it is a wall-clock measurement with slack. S2 (batch worker deadlock) is fixed in /repo (051502e); batch_worker_never_blocks is proved at full strength for the repaired machine.",
     "assumptions": ["timely schedule for the age bound: the runtime fires a due timer within lf and the batch worker reads a fired timer within lw (timely_from); the "
